@@ -76,6 +76,9 @@ pub enum Op {
     ValidateAsOther { m: MRef },
     /// the ledger advances by this many days (statuses must not decay with time)
     AdvanceDays(u8),
+    /// the signer set is rotated (by the newest set; with the operator's bypass or without): statuses are not the
+    /// signers' business and must survive; later approvals are signed by the new set
+    Rotate { bypass: bool },
 }
 
 #[derive(Clone, Debug, Serialize, Deserialize)]
@@ -98,6 +101,7 @@ fn op() -> impl Strategy<Value = Op> {
         5 => (0u8..196, 0u8..8, prop_oneof![6 => Just(true), 1 => Just(false)]).prop_map(|(slot, change, authorised)| Op::ValidateStored { slot, change, authorised }),
         1 => mref().prop_map(|m| Op::ValidateAsOther { m }),
         1 => (1u8..90).prop_map(Op::AdvanceDays),
+        1 => any::<bool>().prop_map(|bypass| Op::Rotate { bypass }),
     ]
 }
 
@@ -151,7 +155,7 @@ impl Property for C02 {
         "C02"
     }
     fn rule(&self) -> &'static str {
-        "proptest histories (<=30 quick / <=60 thorough ops) of batched approvals (with in-batch duplicates and re-use of known ids), consumption attempts (probe contract calling as itself, accounts with/without authorisation, destinations and callers that are the account-kind address carrying the same 32 bytes as a contract-kind destination, exact replay of a stored message or with one field changed, a contract naming another address) and ledger advancement by 1-89 days (<= 250 days in total; statuses must not decay) over pools built to collide: 14 chains x 14 ids such that several pairs consist of the same characters split differently between chain and id (plain concatenation: a+bc = ab+c = abc+\"\"; with separators: x + y_z vs x_y + z, p + q:r vs p:q + r) two pairs of 70-character strings differing only in the last character, one pair of 150 characters split at two different positions, and strings differing only in letter case or a leading/trailing space; oracle = reference map (chain,id)->NotApproved/Approved(msg)/Executed moving only forward, event trace per op, sweep of is_message_executed over every known id and every id that collides with a known one and is_message_approved over stored messages and one-field variants after every op. non-trivial = history re-approves an executed id, or consumes with exactly one mismatching field after an approval, or has an in-batch duplicate id, or touches two ids whose chain||id concatenations coincide. A share of the random cases is an entry-point sweep (construction as described for C13: the exported functions of all shipped contracts read from the sources of the tree under test, a complete deployed system, pooled arguments - including well-formed signer sets nobody installed and proofs properly signed by the gateway's own signer set over digests that belong to no command -, every require_auth satisfied by the host's mock and recorded; entry points absent from the pinned inventory get 300 deterministic cases each); oracle: one of eight messages the gateway holds approved becomes executed only if the destination it names is among the recorded signers or is the called contract; non-trivial = the call succeeded"
+        "proptest histories (<=30 quick / <=60 thorough ops) of batched approvals (with in-batch duplicates and re-use of known ids), consumption attempts (probe contract calling as itself, accounts with/without authorisation, destinations and callers that are the account-kind address carrying the same 32 bytes as a contract-kind destination, exact replay of a stored message or with one field changed, a contract naming another address) signer rotations (ordinary and operator-bypass; later approvals are signed by the new set) and ledger advancement by 1-89 days (<= 250 days in total; statuses must not decay) over pools built to collide: 14 chains x 14 ids such that several pairs consist of the same characters split differently between chain and id (plain concatenation: a+bc = ab+c = abc+\"\"; with separators: x + y_z vs x_y + z, p + q:r vs p:q + r) two pairs of 70-character strings differing only in the last character, one pair of 150 characters split at two different positions, and strings differing only in letter case or a leading/trailing space; oracle = reference map (chain,id)->NotApproved/Approved(msg)/Executed moving only forward, event trace per op, sweep of is_message_executed over every known id and every id that collides with a known one and is_message_approved over stored messages and one-field variants after every op. non-trivial = history re-approves an executed id, or consumes with exactly one mismatching field after an approval, or has an in-batch duplicate id, or touches two ids whose chain||id concatenations coincide. A share of the random cases is an entry-point sweep (construction as described for C13: the exported functions of all shipped contracts read from the sources of the tree under test, a complete deployed system, pooled arguments - including well-formed signer sets nobody installed and proofs properly signed by the gateway's own signer set over digests that belong to no command -, every require_auth satisfied by the host's mock and recorded; entry points absent from the pinned inventory get 300 deterministic cases each); oracle: one of eight messages the gateway holds approved becomes executed only if the destination it names is among the recorded signers or is the called contract; non-trivial = the call succeeded"
     }
     fn cases(&self, tier: Tier) -> u64 {
         tier.pick(3000, 40000)
@@ -188,12 +192,26 @@ impl Property for C02 {
         let mut model: BTreeMap<(u8, u8), St> = BTreeMap::new();
         let mut touched_concat: std::collections::BTreeSet<(String, (u8, u8))> = Default::default();
         let mut nontrivial = false;
+        let mut cur_set = w.set.clone();
+        let mut rotations: u16 = 0;
 
         for (step, op) in case.ops.iter().enumerate() {
             let ev0 = events_len(&env);
             let gw_before = snapshot_of(&env, &w.gw.id);
             let mut touched: Vec<(u8, u8)> = vec![];
             match op {
+                Op::Rotate { bypass } => {
+                    rotations += 1;
+                    let next = simple_set(100 + rotations);
+                    env.mock_all_auths();
+                    ensure_p!(w.gw.rotate(&env, &next, &cur_set, cur_set.full_mask(), *bypass), "step {}: honest rotation (bypass {}) refused", step, bypass);
+                    env.set_auths(&[]);
+                    cur_set = next;
+                    cx.label(if *bypass { "bypass_rotation_in_history" } else { "rotation_in_history" });
+                    nontrivial = true;
+                    // every known id is swept below
+                    touched.extend(model.keys().cloned());
+                }
                 Op::AdvanceDays(d) => {
                     if days_passed + *d as u32 <= 250 {
                         days_passed += *d as u32;
@@ -226,7 +244,7 @@ impl Property for C02 {
                         }
                     }
                     let msgs: Vec<Message> = batch.iter().map(|m| w.msg(m)).collect();
-                    w.gw.approve(&env, &w.set, &msgs).map_err(|e| format!("step {}: {}", step, e))?;
+                    w.gw.approve(&env, &cur_set, &msgs).map_err(|e| format!("step {}: {}", step, e))?;
                     // approval events = gateway events whose first topic is the approval symbol (other events are not the property's business)
                     let evs: Vec<Ev> = events_since(&env, ev0).into_iter().filter(|e| e.0 == w.gw.id && e.1.first() == Some(&sym("message_approved"))).collect();
                     ensure_p!(
@@ -419,6 +437,20 @@ fn fixed_direct() -> Vec<Case> {
                     Op::Approve(vec![MRef { ph: 1, ..m }]),
                     Op::ValidateStored { slot: 6, change: 0, authorised: true },
                     Op::Validate { caller: 0, m: MRef { ph: 1, ..m }, authorised: true },
+                ],
+                sweep: None,
+            },
+            // approve -> execute -> (bypass) rotation -> the new set re-approves the executed id -> try to execute again
+            Case {
+                ops: vec![
+                    Op::Approve(vec![m]),
+                    Op::ValidateStored { slot: 6, change: 0, authorised: true },
+                    Op::Rotate { bypass: true },
+                    Op::Approve(vec![m]),
+                    Op::ValidateStored { slot: 6, change: 0, authorised: true },
+                    Op::Rotate { bypass: false },
+                    Op::Approve(vec![m, MRef { ph: 1, ..m }]),
+                    Op::ValidateStored { slot: 6, change: 0, authorised: true },
                 ],
                 sweep: None,
             },
